@@ -9,7 +9,7 @@ line into a typed `Model.UpStep.Op`, `Model.UpStep.stepOp` does everything else,
 Ops: `failat k` / `failfrom k` / `failoff`; `nr_start h slot`, `nr_cancel h`, `nw_start h slot`, `nw_cancel h`,
 `na_start h slot`, `na_cancel h`, `nc_start h pattern timeo`, `nc_cancel h`, `nbr_init h slot`, `nbr_wait h len`,
 `nbr_cancel h`, `nbr_free h`, `nbw_init h slot`, `nbw_reserve h len`, `nbw_consume h len`, `nbw_write h len`,
-`nbw_free h`, `hq_start h pattern pathlen`, `hq_cancel h`, `end`.  `h` is the harness' handle of the object,
+`nbw_free h`, `hq_start h pattern pathlen`, `hqs_start h pattern pathlen hostlen` (https_request), `hq_cancel h`, `end`.  `h` is the harness' handle of the object,
 slot `i` is descriptor `64 + i`.  L1: status and `rf` = requests refused during the op.  L2: live library
 blocks, sizes of the requests made during the op (in order), descriptors with a reader / writer registered,
 number of immediate events and of timers, fill of the four pools.
@@ -51,6 +51,7 @@ def parseOp : List String → Option Op
       let t : Option Int ← if timeo = "-" then pure none else (timeo.toInt?).map some
       pure (.ncStart (← h.toNat?) (parsePattern pat) t)
   | ["hq_start", h, pat, pl] => do pure (.hqStart (← h.toNat?) (parsePattern pat) (← pl.toNat?))
+  | ["hqs_start", h, pat, pl, hl] => do pure (.hqsStart (← h.toNat?) (parsePattern pat) (← pl.toNat?) (← hl.toNat?))
   | _ => none
 
 /-! ## typed output → text -/
